@@ -16,10 +16,11 @@ import (
 // Universe of keys: deliberately small so that histories collide.
 var (
 	NIs = []string{"DEFAULT", "VRF-A", "VRF-B"}
-	V4s = []string{"1.0.0.0/8", "2.2.0.0/16", "10.1.1.0/24", "3.3.3.3/32"}
-	// (the last two are valid but not canonically spelled: upper-case digits, non-minimal zero compression;
-	// the RIB keys entries by the string it was given)
-	V6s      = []string{"2001:db8::/32", "2001:db8:1::/48", "::/0", "2001:DB8:CAFE::/48", "2001:db8:0:1::/64"}
+	// (some values are valid but not canonically spelled - host bits set, upper-case digits,
+	// non-minimal zero compression - and each universe holds one pair of different spellings of
+	// the same prefix: the RIB keys entries by the string it was given, so these are distinct keys)
+	V4s      = []string{"1.0.0.0/8", "2.2.0.0/16", "10.1.1.0/24", "3.3.3.3/32", "10.1.1.9/24"}
+	V6s      = []string{"2001:db8::/32", "2001:db8:1::/48", "::/0", "2001:DB8:CAFE::/48", "2001:db8:0:1::/64", "2001:db8:cafe::/48"}
 	Labels   = []uint64{100, 101, 1048575}
 	IDs      = []uint64{1, 2, 3, 4}
 	IPs      = []string{"192.0.2.1", "198.51.100.7", "2001:db8::1"}
